@@ -23,10 +23,10 @@ def K(kind, bound, functions):
 
 VIEW_QUICK = ['k_view_axis_views_2x3', 'k_view_axis_views_2x1', 'k_view_axis_iter_4', 'k_view_sum_3']
 VIEW_THOROUGH = ['k_view_axis_views_3', 'k_view_axis_views_2x3x2', 'k_view_axis_views_3x1x2', 'k_view_axis_views_2x1x2x3',
-                 'k_view_axis_iter_2x3x2', 'k_view_sum_2x3', 'k_view_sum_2x1x3', 'k_view_sum_3x2x2']
-INDEX_QUICK = ['k_index_bijection_2x3', 'k_index_bijection_1', 'k_index_get_2x3', 'k_index_get_2x3_len1', 'k_index_get_2x3_len3',
+                 'k_view_axis_iter_2x3x2', 'k_view_sum_2x3', 'k_view_sum_2x1x3']
+INDEX_QUICK = ['k_index_bijection_2x3', 'k_index_bijection_1', 'k_index_iter_indices_1x3', 'k_index_get_2x3', 'k_index_get_2x3_len1', 'k_index_get_2x3_len3',
                'k_index_iter_indices_4']
-INDEX_THOROUGH = ['k_index_bijection_5', 'k_index_bijection_3x1', 'k_index_bijection_2x3x2', 'k_index_bijection_3x1x4',
+INDEX_THOROUGH = ['k_index_bijection_1x2x2', 'k_index_iter_indices_1x1x2', 'k_index_bijection_5', 'k_index_bijection_3x1', 'k_index_bijection_2x3x2', 'k_index_bijection_3x1x4',
                   'k_index_bijection_2x1x2x3', 'k_index_bijection_5x4x9x2', 'k_index_bijection_2x2x2x2x2',
                   'k_index_get_4', 'k_index_get_4_len0', 'k_index_get_4_len2', 'k_index_get_2x1x3', 'k_index_get_2x2x2x2',
                   'k_index_iter_indices_2x3', 'k_index_iter_indices_3x1x2', 'k_index_iter_indices_2x2x1x2']
@@ -63,6 +63,8 @@ KANI_META.update({
     'k_npy_version_bytes': K('complete', 'none: all [u8;2]', ['Version::from_header_bytes', 'Version::to_header_bytes']),
     'k_npy_read_header_len': K('complete', 'none: all [u8;4]; short inputs of 1 and 3 bytes', ['Version::read_header_len']),
     'k_npy_decode_partial_value_is_error': K('bounded', 'streams of 3 and 6 bytes (f4 values), contents symbolic', ['TypeDescriptor::read']),
+    'k_index_new_absurd_shape': K('complete', 'two axes, all usize lengths; data of 0 and 1 elements', ['Array::new']),
+    'k_npy_decode_chunked_reader': K('bounded', 'stream of two big-endian i4 values (contents symbolic) through readers handing out 1 and 3 bytes per call', ['TypeDescriptor::read', 'get_read_fn']),
     'k_npy_header_write_short_writes': K('bounded', 'header of shape (3,) through sinks accepting 1, 3, 7 bytes per call (HeaderDict Display stubbed by its text)', ['Header::write', 'Version::write_header_len']),
     'k_npy_header_write_failing_sink': K('bounded', 'sink failing at offsets 9 and 70', ['Header::write']),
     'k_npy_write_array_values_bit_exact': K('complete', 'shape (2,), both values over all 2^64 bit patterns (HeaderDict Display stubbed by its text)', ['npy::write_array', 'Header::write', 'Array::iter']),
@@ -221,7 +223,7 @@ REGISTRY = {
     'C16': {
         'title': 'damaged spectrum files are rejected, never read as a different spectrum',
         'level': 'model_checking',
-        'kani_quick': ['k_npy_read_header_len', 'k_detect_spectrum_format', 'k_index_get_2x3_len1'],
+        'kani_quick': ['k_npy_read_header_len', 'k_detect_spectrum_format', 'k_index_new_absurd_shape', 'k_index_get_2x3_len1'],
         'kani_thorough': ['k_npy_decode_partial_value_is_error'],
         'assumptions': ['claimed for the value section and the length field: a partial trailing value or a short length field is an error; Array::new rejects a value count different from the product of the shape (checked with K-index harnesses through Array::from_iter)',
                         'truncation inside the header dictionary and text-format damage go through nom / str parsing and are not verified'],
@@ -231,7 +233,7 @@ REGISTRY = {
         'title': 'every invocation ends in success or a diagnosed error, never a panic',
         'level': 'model_checking',
         'verus': ['v_axis', 'v_view', 'v_axisiter', 'v_npyhdr', 'v_indexsum', 'v_projiter'],
-        'kani_quick': ['k_detect_spectrum_format', 'k_marg_errors', 'k_proj_validation_2d', 'k_stat_total_1d_1', 'k_stat_total_1d_2', 'k_stat_total_1d_3'],
+        'kani_quick': ['k_detect_spectrum_format', 'k_index_new_absurd_shape', 'k_marg_errors', 'k_proj_validation_2d', 'k_stat_total_1d_1', 'k_stat_total_1d_2', 'k_stat_total_1d_3'],
         'kani_thorough': STAT_TOTAL + ['k_fold_empty'],
         'assumptions': [A_BIN, A_NOODLES, 'panic-freedom (overflow, bounds, unwrap/expect, division) is an obligation of every function under contract in the Verus units and of every Kani harness; it is claimed for those functions under their stated preconditions only'],
         'not_decided': ['totality of the process over arbitrary bytes (noodles, flate2, nom, clap)', "main's mapping of Err to exit status 1", 'sample::Map::shape unwrap on contradictory sample lists'],
@@ -242,7 +244,7 @@ REGISTRY = {
         'verus': ['v_npyhdr'],
         'verus_pairs': {'v_npyhdr': ['k_npy_header_write_short_writes', 'k_npy_header_write_failing_sink']},
         'kani_quick': ['k_detect_genotype_stream', 'k_npy_read_header_len'],
-        'kani_thorough': ['k_npy_decode_partial_value_is_error', 'k_npy_header_write_short_writes', 'k_npy_header_write_failing_sink'],
+        'kani_thorough': ['k_npy_decode_partial_value_is_error', 'k_npy_decode_chunked_reader', 'k_npy_header_write_short_writes', 'k_npy_header_write_failing_sink'],
         'assumptions': ['writer: for every sink obeying the write_all contract the bytes are the same sequence however many the sink accepts per call, and Ok is returned only if no write failed (V-npyhdr, unbounded)',
                         'reader: read_exact / fill_buf of std are assumed chunk-independent; the npy value loop is exercised on slices only'],
         'not_decided': ['VCF/BCF/BGZF streams (noodles, flate2)', 'text writer (writeln!/format!)', 'BGZF branch of format detection (gzip decoder over the first buffer)'],
